@@ -162,7 +162,7 @@ func Reach(label string) {}
 // Unwind sets the cap on symbolic iterations per branch instruction per call frame.
 func Unwind(n int) {}
 
-// Opt sets an engine option ("maporder", "select", "sched", "preempt", "steps", "conccap", "prefer_int").
+// Opt sets an engine option ("maporder", "select", "sched", "preempt", "steps", "conccap", "prefer_int", "timerfires", "switches", "notimers", "realqueries").
 func Opt(name string, v int) {}
 
 // Blocked returns the number of goroutines (other than the harness) that are blocked forever-or-now.
